@@ -49,7 +49,7 @@ def main():
         res["demo_output_on_change"] = o1[-600:]
         res["checks"] = {}
         for pid in pids:
-            rc, out = sh([os.path.join(VERIF, "check"), pid, "--tier", "quick"], cwd=VERIF, env=dict(os.environ, VERIF_REPO=wt))
+            rc, out = sh([os.path.join(VERIF, "check"), pid, "--tier", "quick"], cwd=VERIF, env=dict(os.environ, VERIF_REPO=wt, VERIF_WORK=os.path.join(wt, ".verif-work"), VERIF_EVIDENCE=os.path.join(wt, ".verif-evidence")))
             viol = [l for l in out.splitlines() if l.startswith("VIOLATION")]
             res["checks"][pid] = {"rc": rc, "violations": len(viol), "first": viol[0][:400] if viol else "",
                                   "machinery": [l[:300] for l in out.splitlines() if l.startswith("MACHINERY")][:1]}
